@@ -1,4 +1,4 @@
-(* C03, part 7: region geometry along the chain, and all 36 properties together. *)
+(* C03, part 7: region geometry and disparity along the chain, and all 36 properties together. *)
 From TT Require Import Model.Doc Gen.StyleTables Model.Isd Spec.IsdSpec Spec.StyleSpec.
 From TT Require Import Proofs.Common.StyleFrame Proofs.C01.Display Proofs.C13.Shape Proofs.C13.Styles.
 From TT Require Import Proofs.C03.Values Proofs.C03.Cascade Proofs.C03.Chain Proofs.C03.FontSize Proofs.C03.Phase Proofs.C03.Inherited
@@ -45,10 +45,18 @@ Proof.
   rewrite (style_phase_padding d t (fst x) par (snd x) st fs h w Hleaf Hctx H Hfs He), padding_cons, He', Hfs', Hwm, surj_link. reflexivity.
 Qed.
 
+Theorem styles_along_disparity d t chain st : chain_ok chain = true -> styles_along d t chain = Ok st ->
+  sget st p_Disparity = disparity d t chain.
+Proof.
+  intros Hok Hst. destruct (styles_along_fontsize d t _ st Hok Hst) as (fs & Hfs & Hfs').
+  destruct (chain_ctx d t chain st Hok Hst) as (x & up & par & -> & Hleaf & Hctx & H).
+  rewrite (style_phase_disparity d t (fst x) par (snd x) st fs Hleaf Hctx H Hfs), disparity_cons, Hfs', surj_link. reflexivity.
+Qed.
+
 (* ---- every property ---------------------------------------------------------------------------------------------------- *)
 Definition special_props : list Z :=
   [p_FontSize; p_Extent; p_Origin; p_Position; p_LineHeight; p_LinePadding; p_RubyReserve; p_TextOutline; p_TextShadow; p_TextEmphasis;
-   p_Padding; p_TextDecoration; p_Direction; p_WritingMode].
+   p_Padding; p_TextDecoration; p_Direction; p_WritingMode; p_Disparity].
 
 Lemma nonplain_cases p : In p all_props -> plain_prop p = false -> In p special_props.
 Proof.
@@ -63,7 +71,7 @@ Proof.
   intros Hin Hok Hty Hst. destruct (plain_prop p) eqn:Ep.
   - rewrite (plain_is_spec d t chain p Ep). apply (styles_along_plain d t p Ep Hin chain st Hok Hst).
   - pose proof (nonplain_cases p Hin Ep) as Hc. unfold special_props in Hc. cbn [In] in Hc.
-    destruct Hc as [<-|[<-|[<-|[<-|[<-|[<-|[<-|[<-|[<-|[<-|[<-|[<-|[<-|[<-|[]]]]]]]]]]]]]]].
+    destruct Hc as [<-|[<-|[<-|[<-|[<-|[<-|[<-|[<-|[<-|[<-|[<-|[<-|[<-|[<-|[<-|[]]]]]]]]]]]]]]]].
     + destruct (styles_along_fontsize d t chain st Hok Hst) as (l & Hl & Hl').
       change (computed_spec d t chain p_FontSize) with (match font_size d t chain with Some l => Some (VLen l) | None => None end).
       rewrite Hl', Hl. reflexivity.
@@ -87,6 +95,7 @@ Proof.
     + apply (styles_along_text_decoration d t chain st Hok Hst (Hty eq_refl)).
     + apply (styles_along_direction d t chain st Hok Hst).
     + apply (styles_along_writing_mode d t chain st Hok Hst).
+    + apply (styles_along_disparity d t chain st Hok Hst).
 Qed.
 
 (* the hypotheses are satisfiable: a body in the default region of an otherwise empty document *)
